@@ -50,6 +50,7 @@ type loopInfo struct {
 	pos     token.Pos
 	spec    *LoopSpec
 	hdrState *State // state at header after havoc (for decreases)
+	pre      *State // state in which the loop was entered (spec: atentry(e))
 	measure0 Term
 }
 
@@ -510,6 +511,8 @@ func (u *Unit) declareOnce(name, decl string) {
 
 func (u *Unit) enterLoop(fr *Frame, li *loopInfo, st *State, reach Term) (*State, Term) {
 	u.scopeBlk = li.header
+	li.pre = st.clone()
+	u.curLoopPre = li.pre
 	u.comment(fmt.Sprintf("loop %d of %s", li.ordinal, fr.fn.Name()))
 	// 1. invariants hold on entry
 	if li.spec != nil {
@@ -587,6 +590,7 @@ func (u *Unit) backEdge(fr *Frame, li *loopInfo, st *State, cond Term) {
 		return
 	}
 	u.scopeBlk = li.header
+	u.curLoopPre = li.pre
 	for i, inv := range li.spec.Invariants {
 		f, ok := u.evalLoopClause(inv.Expr, u.loopEnv(fr, st))
 		if !ok {
